@@ -10,6 +10,7 @@
      Parameters are substituted by the argument expressions when those are side-effect free and the helper does not
      assign them; otherwise `p = arg` is emitted first.  Helper locals that collide with caller names are renamed.
   2. `for i, x in enumerate(xs)` -> `for i in range(len(xs))` with x replaced by xs[i] (xs, x, i not assigned in the body).
+  4. `T = T op e` -> `T op= e`.
   3. (on demand, `unrolled(fn)`) loops over a literal tuple / list (directly, or through a single-assignment local) and `range(k)`, k <= 8 a literal,
      without break / continue, are unrolled with the target replaced by the element; subscripts of single-assignment
      literal tuples by a constant index are folded (`axes[1]` -> "y").
@@ -533,6 +534,23 @@ def _unroll_fn(f, log):
             pass
 
 
+# ------------------------------------------------------------------------------------------------ 4. x = x op e
+class _Aug(ast.NodeTransformer):
+    """`T = T op e` -> `T op= e` for a name / subscript / attribute target (the value the target ends up with is the same; the
+    rules are written against the augmented form the package uses)"""
+    def __init__(self, log):
+        self.log = log
+
+    def visit_Assign(self, n):
+        self.generic_visit(n)
+        if len(n.targets) == 1 and isinstance(n.targets[0], (ast.Name, ast.Subscript, ast.Attribute)) and \
+                isinstance(n.value, ast.BinOp) and isinstance(n.value.op, (ast.Add, ast.Sub, ast.Mult, ast.Div)) and \
+                ast.unparse(n.value.left) == ast.unparse(n.targets[0]) and _pure(n.targets[0]):
+            self.log.append(("augassign", ast.unparse(n.targets[0])[:40]))
+            return ast.copy_location(ast.AugAssign(target=n.targets[0], op=n.value.op, value=n.value.right), n)
+        return n
+
+
 # ------------------------------------------------------------------------------------------------ driver
 def normalise(tree, modname, inventory):
     log = []
@@ -540,6 +558,7 @@ def normalise(tree, modname, inventory):
     inl.run()
     tree._helpers = inl.found
     _Enum(log).visit(tree)
+    _Aug(log).visit(tree)
     ast.fix_missing_locations(tree)
     return log
 
